@@ -375,3 +375,112 @@ End LifeDup.
 (* no attachment: MPI_Comm_dup copies nothing *)
 Theorem dup_unattached s : attr s = None -> l_dup s = (s, None).
 Proof. intros H. unfold l_dup. rewrite H. reflexivity. Qed.
+
+(* ---- sc_shmem_allgather with separate send / receive signatures ------------------------------------------------------ *)
+Lemma coll_gather_some ms f snd rcv room x : coll_gather ms f snd rcv room = Some x -> x = concat (map f ms).
+Proof. unfold coll_gather. destruct (_ && _ && _); [|discriminate]. intros E; injection E as <-. reflexivity. Qed.
+
+Lemma coll_gather_ok ms f snd rcv room : sig_bytes snd = sig_bytes rcv -> (forall q, In q ms -> length (f q) = sig_bytes snd) ->
+  length ms * sig_bytes rcv <= room -> coll_gather ms f snd rcv room = Some (concat (map f ms)).
+Proof.
+  intros E L R. unfold coll_gather. rewrite (proj2 (Nat.eqb_eq _ _) E). cbn [andb].
+  replace (forallb _ ms) with true by (symmetry; apply forallb_forall; intros q Hq; apply Nat.eqb_eq, L, Hq).
+  rewrite (proj2 (Nat.leb_le _ _) R). reflexivity.
+Qed.
+
+Lemma concat_map_concat {A B} (g : A -> list B) (ls : list (list A)) : concat (map g (concat ls)) = concat (map (fun l => concat (map g l)) ls).
+Proof. induction ls as [|l t IH]; [reflexivity|]. cbn [concat map]. rewrite map_app, concat_app, IH. reflexivity. Qed.
+
+Lemma length_concat_const {B} (g : nat -> list B) ms n : (forall q, In q ms -> length (g q) = n) -> length (concat (map g ms)) = length ms * n.
+Proof.
+  intros H. induction ms as [|q t IH]; [reflexivity|]. cbn [map concat length]. rewrite app_length, H by (left; reflexivity).
+  rewrite IH by (intros; apply H; right; assumption). lia.
+Qed.
+
+(* SOUNDNESS of the refinement, for ANY node communicators: whenever every MPI call of sc_shmem_allgather is defined, the array
+   read by rank r is the one of the signature-free specification shmem_allgather (the contributions in gather order) *)
+Theorem allgather_sig_refines P comms contrib snd rcv room f r x :
+  shmem_allgather_sig P comms contrib snd rcv room f r = Some x -> x = shmem_allgather P comms f contrib r.
+Proof.
+  unfold shmem_allgather_sig, shmem_allgather, gather, gather_order. destruct (shared_on comms f r) eqn:S.
+  - unfold node_major. destruct (comms (writer_of comms f r)) as [nc|]; [|discriminate].
+    destruct (forallb _ (inter nc)) eqn:A; [|discriminate]. intros H. apply coll_gather_some in H. subst x.
+    rewrite concat_map_concat, map_map. f_equal. apply map_ext_in. intros q Hq.
+    rewrite forallb_forall in A. specialize (A q Hq). unfold node_buffer in *. destruct (comms q) as [ncq|]; [|discriminate].
+    destruct (coll_gather (intra ncq) contrib snd rcv _) as [b|] eqn:G; [|discriminate]. cbn [or_nil]. exact (coll_gather_some _ _ _ _ _ _ G).
+  - apply coll_gather_some.
+Qed.
+
+Section SigExplicit.
+  Variables nn ppn : nat.
+  Hypothesis ppn_pos : 0 < ppn.
+  Let P := nn * ppn.
+  Variable contrib : nat -> list Z.
+  Variables snd rcv : sig.
+  Variable room : nat.
+  Hypothesis Hsame : sig_bytes snd = sig_bytes rcv.                              (* the two signatures describe the same bytes *)
+  Hypothesis Hlen : forall q, q < P -> length (contrib q) = sig_bytes snd.       (* every send buffer holds them *)
+  Hypothesis Hroom : P * sig_bytes rcv <= room.                                  (* the array has room for P blocks *)
+
+  Lemma node_buffer_explicit k : k < nn ->
+    node_buffer (comms_explicit nn ppn) contrib snd rcv (k * ppn + 0) = Some (concat (map contrib (seq (k * ppn) ppn))).
+  Proof.
+    intros Hk. unfold node_buffer, comms_explicit, attach_explicit. cbn [intra].
+    replace ((k * ppn + 0) / ppn) with k by (rewrite Nat.add_0_r, Nat.div_mul; lia). rewrite (row_members nn ppn ppn_pos k Hk), seq_length.
+    apply coll_gather_ok; [exact Hsame| |rewrite seq_length; unfold sig_bytes; lia].
+    intros q Hq. apply in_seq in Hq. apply Hlen. unfold P. nia.
+  Qed.
+
+  (* every flavour, every reading rank, EVERY pair of signatures that describe the same bytes: all MPI calls are defined and the
+     array holds the send buffers of ranks 0 .. P-1 in rank order *)
+  Theorem allgather_sig_explicit f r : r < P ->
+    shmem_allgather_sig P (comms_explicit nn ppn) contrib snd rcv room f r = Some (rank_order P contrib).
+  Proof.
+    intros Hr.
+    assert (D : exists x, shmem_allgather_sig P (comms_explicit nn ppn) contrib snd rcv room f r = Some x).
+    { unfold shmem_allgather_sig. destruct (shared_on (comms_explicit nn ppn) f r) eqn:S.
+      - assert (Sh : is_shared f = true) by (unfold shared_on, comms_explicit in S; exact S).
+        fold P. rewrite (writer_explicit nn ppn ppn_pos f r Hr), Sh.
+        assert (Hk : r / ppn < nn) by (apply Nat.div_lt_upper_bound; [lia|unfold P in Hr; lia]).
+        unfold comms_explicit at 1. unfold attach_explicit. cbn [intra inter].
+        rewrite Nat.div_mul by lia. replace ((r / ppn * ppn) mod ppn) with 0 by (symmetry; apply Nat.mod_mul; lia).
+        rewrite (row_members nn ppn ppn_pos _ Hk), seq_length, (col_members nn ppn ppn_pos 0 ppn_pos).
+        replace (forallb _ _) with true.
+        + eexists. apply coll_gather_ok.
+          * unfold sig_bytes, sig_times. cbn [sg_count sg_size]. unfold sig_bytes in Hsame. nia.
+          * intros q Hq. apply in_map_iff in Hq. destruct Hq as (k & <- & Hk'). apply in_seq in Hk'.
+            rewrite node_buffer_explicit by lia. cbn [or_nil].
+            rewrite (length_concat_const contrib _ (sig_bytes snd)), seq_length.
+            -- unfold sig_bytes, sig_times. cbn [sg_count sg_size]. nia.
+            -- intros x Hx. apply in_seq in Hx. apply Hlen. unfold P. nia.
+          * rewrite map_length, seq_length. unfold sig_bytes, sig_times in *. cbn [sg_count sg_size]. unfold P in Hroom. nia.
+        + symmetry. apply forallb_forall. intros q Hq. apply in_map_iff in Hq. destruct Hq as (k & <- & Hk'). apply in_seq in Hk'.
+          rewrite node_buffer_explicit by lia. reflexivity.
+      - eexists. apply coll_gather_ok; [exact Hsame| |rewrite seq_length; exact Hroom].
+        intros q Hq. apply in_seq in Hq. apply Hlen. lia. }
+    destruct D as [x Hx]. rewrite Hx. f_equal. rewrite (allgather_sig_refines _ _ _ _ _ _ _ _ _ Hx).
+    apply allgather_explicit; assumption.
+  Qed.
+End SigExplicit.
+
+(* nothing attached: one MPI_Allgather on the communicator itself *)
+Theorem allgather_sig_unattached P contrib snd rcv room f r : sig_bytes snd = sig_bytes rcv ->
+  (forall q, q < P -> length (contrib q) = sig_bytes snd) -> P * sig_bytes rcv <= room ->
+  shmem_allgather_sig P comms_none contrib snd rcv room f r = Some (rank_order P contrib).
+Proof.
+  intros E L R. unfold shmem_allgather_sig, shared_on, comms_none. apply coll_gather_ok; [exact E| |rewrite seq_length; exact R].
+  intros q Hq. apply in_seq in Hq. apply L. lia.
+Qed.
+
+(* the precondition is needed: with signatures that describe different numbers of bytes an MPI call is erroneous - for the
+   basic flavours always, for the window flavours as soon as there is a node root *)
+Theorem allgather_sig_mismatch_undefined P comms contrib snd rcv room f r : sig_bytes snd <> sig_bytes rcv ->
+  (shared_on comms f r = true -> forall nc, comms (writer_of comms f r) = Some nc -> inter nc <> []) ->
+  shmem_allgather_sig P comms contrib snd rcv room f r = None.
+Proof.
+  intros N H. assert (C : forall ms g room', coll_gather ms g snd rcv room' = None)
+    by (intros; unfold coll_gather; rewrite (proj2 (Nat.eqb_neq _ _) N); reflexivity).
+  unfold shmem_allgather_sig. destruct (shared_on comms f r); [|apply C].
+  destruct (comms (writer_of comms f r)) as [nc|] eqn:E; [|reflexivity]. specialize (H eq_refl nc eq_refl).
+  destruct (inter nc) as [|q t]; [congruence|]. cbn [forallb]. unfold node_buffer at 1. destruct (comms q); [rewrite C|]; reflexivity.
+Qed.
